@@ -94,6 +94,10 @@ Definition normalise_child (e : ty) (nd : node) : result node :=
   match e with
   | TUint k => Ok (basic_node (firstn (N.to_nat k) (root H nd)))
   | TBool => do v <- bool_decode (firstn 1 (root H nd)); Ok (basic_node [byte_of_N v])
+  | TByteVector _ | TByteList _ =>
+      (* raw-bytes views read their bytes out of the backing at once (byte_arrays.py:116-126, 203-215)
+         and rebuild a backing from the bytes on demand *)
+      do x <- ser_impl H src e nd; mk e (VBytes (fst x))
   | _ => Ok nd
   end.
 
